@@ -133,6 +133,11 @@ fn run_project(ctx: &Ctx, project: &Project, t: &mut Tape, rec: &Rec, tag: &str)
         paths.push(p);
     }
     let mut opts = options(t, &paths, &dir);
+    if tag == "deep" {
+        // these inputs take at most about a second on the unchanged tree; a quarter of the usual budget
+        // (and of the re-run budget) keeps a run against a tree that hangs on them affordable
+        opts.cpu_secs = 30;
+    }
     let out = binrun::run(&ctx.repo_bin, &opts).map_err(|e| Bad::new(format!("INFRA {e}")))?;
     let mut verdict = judge(&out, opts.cpu_secs);
     if let Err((_, sig)) = &verdict {
@@ -490,7 +495,7 @@ pub fn run(ctx: &Ctx) -> i32 {
     outcome.absorb(&known, fails);
     let fails = run_tapes(ctx, "bytes", n / 2, 1200, &stats, |tape, rec| bytes_case(ctx, tape, rec));
     outcome.absorb(&known, fails);
-    let fails = run_tapes_opts(ctx, "deep", ctx.tier.pick(640, 8_000), 64, 60, &stats, |tape, rec| deep_case(ctx, tape, rec));
+    let fails = run_tapes_opts(ctx, "deep", ctx.tier.pick(640, 8_000), 64, 8, &stats, |tape, rec| deep_case(ctx, tape, rec));
     outcome.absorb(&known, fails);
 
     let mut fuzz_extra = json!({"stage": "not run in the quick tier"});
@@ -522,7 +527,7 @@ pub fn run(ctx: &Ctx) -> i32 {
             rule: "the real release binary is run (RLIMIT_CPU 120 s, RLIMIT_AS 4 GiB, cleared environment) on generated projects of 1-3 files x random supported options (curve, level, verbose, SARIF, allow list): (a) byte strings (raw bytes, ASCII, token soup over the grammar's terminals), (b) grammar-valid files — `wild` files using every production with no semantic discipline and semantically valid files, both under random layouts with comments/CRLF/non-ASCII, (d) small inputs (< 8 KiB) with one deeply nested construct — 16 shapes (operator chains in both directions, Horner, conditional expressions, prefix operators, array indices, calls, if/else-if/blocks/loops, parentheses, array literals, tuples, anonymous components) at depth 10..400 (array indices 40, loops 12, anonymous components 60), (c) near-valid inputs = 1-3 token-level mutations (delete, duplicate, swap, replace/insert a terminal, truncate, splice raw or invalid UTF-8 bytes) of (b); plus replay of all committed seed/reproducer files under all three curves. Clean termination = exit 0 or 1 by itself, last stdout line is the summary, status matches the summary, no `panicked at` / stack overflow / allocation failure / signal; a resource-limit hit is re-run with 4x budget before it counts. Non-trivial = distinct input (content hash) that reached the analysis stage (>= 1 `analyzing` line).",
             assumptions: vec![
                 "modest size: files <= 16 KiB; nesting depth <= 8 in the grammar generators and <= 400 in the nesting-depth domain (a single statement with >= 1000 operators overflowing the stack is recorded separately as a known finding)".into(),
-                "unbounded running is approximated by a CPU budget of 120 s (480 s on re-run), far above the documented 2 x 10 s time box".into(),
+                "unbounded running is approximated by a CPU budget of 120 s (480 s on re-run; 30 s / 120 s for the nesting-depth inputs, which take about a second), far above the documented 2 x 10 s time box".into(),
             ],
             extra: json!({"coverage_guided_stage": fuzz_extra}),
         },
